@@ -2,8 +2,8 @@ from vlib.core import *
 import struct
 
 META = dict(
-    level_text="Proved for ALL kernels (every eigen-solver / orthogonaliser that leaves the old columns alone / sort / correction function / dot / norm / comparison, every linear operator, any commutative ring, every initial space incl. non-orthonormal and dependent ones, every tol/maxit/sizes): the cached products stay A*basis through initialize/update/restart/extend and every stored residue is the true residual A x - theta x (c15_cached_products*, also for Mathlib Matrix.mulVec); info = Successful implies the convergence test was passed by the TRUE residuals of the first nev pairs the space holds at least nev pairs and compute returns nev (c15_successful, c15_successful_true_residuals); num_iterations < maxit, one Rayleigh-Ritz step per iteration, space size <= max at every step and at exit, exactly within [initial, max] for length-preserving kernels, max <= n, nev <= initial and initial + correction <= n from the translated constructor/initialize (c15_iterations*, c15_sizes*); values at exit ordered by the selection rule via the translated argsort over any ordered field (c15_order*); Gram matrix of Ritz vectors = Gram matrix of small eigenvectors when the basis is orthonormal, and orthonormal basis + orthonormal Ritz vectors at every exit for specification-conforming kernels and an orthonormal (e.g. default) initial space, with a counter-model for a non-orthonormal user space (c15_unit_orth*); the repaired DPR correction does not depend on the value of a division by zero (finite for every theta), equals the DPR quotient where theta != a_ii and is 0 elsewhere (c15_correction_defined). Eigen's SelfAdjointEigenSolver and HouseholderQR enter by specification only; rounding and convergence are not proved (oracle with stated slack). F11 (0/0 in the DPR correction) and F18 (sizes reset below nev) are repaired in /repo and covered by c15_correction_defined / c15_sizes / c15_successful; F16 (non-orthonormal user space) and F19 (degenerate correction block) remain known findings.",
-    note="Lean kernel + propext/Classical.choice/Quot.sound; translator xlate + clang-14 AST for Gen.JD / Gen.Sort / Gen.Guard; Eigen SelfAdjointEigenSolver / HouseholderQR modelled by specification (their recorded outputs are replayed into the model and checked against the specification on every run); correspondence samples inputs",
+    level_text="Proved for ALL kernels (every eigen-solver / orthogonaliser that leaves the old columns alone / sort / correction function / dot / norm / comparison, every linear operator, any commutative ring, every initial space incl. non-orthonormal and dependent ones, every tol/maxit/sizes): the cached products stay A*basis through initialize/update/restart/extend and every stored residue is the true residual A x - theta x (c15_cached_products*, also for Mathlib Matrix.mulVec); info = Successful implies the convergence test was passed by the TRUE residuals of the first nev pairs the space holds at least nev pairs and compute returns nev (c15_successful, c15_successful_true_residuals); num_iterations < maxit, one Rayleigh-Ritz step per iteration, space size <= max at every step and at exit, exactly within [initial, max] for length-preserving kernels, max <= n, nev <= initial and initial + correction <= n from the translated constructor/initialize (c15_iterations*, c15_sizes*); values at exit ordered by the selection rule via the translated argsort over any ordered field (c15_order*); Gram matrix of Ritz vectors = Gram matrix of small eigenvectors when the basis is orthonormal, and orthonormal basis + orthonormal Ritz vectors at every exit for specification-conforming kernels and an orthonormal (e.g. default) initial space, with a counter-model for a non-orthonormal user space (c15_unit_orth*); the repaired DPR correction does not depend on the value of a division by zero (finite for every theta), equals the DPR quotient where theta != a_ii and is 0 elsewhere (c15_correction_defined); the extension step is extend_basis -> twice_is_enough_orthogonalisation -> 2 x (subspace_orthogonalisation; QR_orthogonalisation = Q factor of Eigen::HouseholderQR) and reaches no Gram-Schmidt / normalize() routine, read off the call footprint of Orthogonalization.h / SearchSpace.h regenerated on every run (c15_extension_uses_householder_qr); for an orthogonaliser meeting the Q-factor specification (appended block orthonormal in itself for EVERY input) every appended column has unit norm and is non-zero whatever the old columns are (c15_extension_block_orthonormal), with a counter-model where an orthogonaliser that leaves a zero column yields Successful with eigenvalue 0 and a zero eigenvector. Eigen's SelfAdjointEigenSolver and HouseholderQR enter by specification only; rounding and convergence are not proved (oracle with stated slack). F11 (0/0 in the DPR correction) and F18 (sizes reset below nev) are repaired in /repo and covered by c15_correction_defined / c15_sizes / c15_successful; F16 (non-orthonormal user space) and F19 (degenerate correction block) remain known findings.",
+    note="Lean kernel + propext/Classical.choice/Quot.sound; translator xlate + clang-14 AST for Gen.JD / Gen.JDOrth (call footprint of Orthogonalization.h) / Gen.Sort / Gen.Guard; Eigen SelfAdjointEigenSolver / HouseholderQR modelled by specification (their recorded outputs are replayed into the model and checked against the specification on every run); correspondence samples inputs",
     technique="Lean 4 proof (induction on the loop, list/module algebra) on a kernel-generic model + source-translated size logic; differential correspondence (exact discrete fields, tolerance on numerics, replay of third-party kernels); long-double oracle on the implementation",
     design="§5 C15", harnesses=['c15'])
 
@@ -59,7 +59,7 @@ def cmp_line(rq, a, b):
             na = [_d(t) for t in pa[1].split()]; nb = [_d(t) for t in pb[1].split()]
             wa = [_d(t) for t in pa[2].split()]; wb = [_d(t) for t in pb[2].split()]
         except Exception as e: return ('hard', 'unparsable step numbers: ' + repr(e))
-        if hb[-4:] != ['1', '1', '1', '1']: return ('hard', 'recorded third-party kernel output violates its specification (left columns untouched, column count, corrections inside the new span, eigen-decomposition) = ' + ' '.join(hb[-4:]))
+        if hb[-5:] != ['1', '1', '1', '1', '1']: return ('hard', 'recorded third-party kernel output violates its specification (left columns untouched, column count, corrections inside the new span, appended block orthonormal in itself [Householder Q factor: unit-norm columns], eigen-decomposition) = ' + ' '.join(hb[-5:]))
         scale = 1.0 + max([abs(x) for x in wa if x == x] + [0.0])
         if len(wa) != len(wb) or len(na) != len(nb): return ('hard', 'shape of cached products / residues differs')
         for x, y in zip(wa, wb):
@@ -89,6 +89,9 @@ def corr15(R, tier, oracle_only=False):
         if os.path.exists(lp): last = open(lp).read()[:3000]
         fails.append({'sig': 'harness-abort', 'what': f'harness c15 exited with {rc}: ' + (m.group(1) if m else tail[-300:]),
                       'replay': {'harness': 'c15', 'seed': R.seed, 'tier': tier, 'lastcase': last, 'log_tail': tail}})
+    # report order: failures of the property's own clauses (Successful with a non-unit / non-orthogonal vector, a residual above tol, ...) before
+    # the kernel-level ones of the same run, so that the replay written for a violation is an end-to-end failing input where there is one
+    fails.sort(key=lambda f: 1 if f.get('sig') in ('extension-block-not-orthonormal', 'basis-not-orthonormal') else 0)
     R.failures += fails
     req = os.path.join(out, 'requests.txt'); impl = os.path.join(out, 'impl.txt'); model = os.path.join(out, 'model.txt')
     res = {'total': 0, 'equal': 0, 'soft': 0, 'tie': 0, 'hard': []}
@@ -131,7 +134,7 @@ def corr15(R, tier, oracle_only=False):
 def run(tier, seed, replay=None):
     R = Run('C15', tier, seed)
     R.trusted = TRUSTED_COMMON + [
-        'Eigen::SelfAdjointEigenSolver and Eigen::HouseholderQR (inside twice_is_enough_orthogonalisation) are modelled by their specification (orthonormal eigen-decomposition of the small matrix; old columns untouched, new columns an orthonormal basis completing the same span); every recorded output is checked against that specification on the model side (spanok/eigok fields)',
+        'Eigen::SelfAdjointEigenSolver and Eigen::HouseholderQR (inside twice_is_enough_orthogonalisation) are modelled by their specification (orthonormal eigen-decomposition of the small matrix; old columns untouched, new columns an orthonormal basis completing the same span, the appended block orthonormal in itself - unit-norm columns - for EVERY input as the leading columns of a Householder Q factor are); every recorded output is checked against that specification on the model side (spanok/blockok/eigok fields) and, for the appended block, also by the harness on every observed extension (oracle signature extension-block-not-orthonormal)',
         'exact arithmetic: theorems hold over a commutative ring / ordered field; rounding enters only through the stated oracle slack 64*eps*n*(||A||_F+1)*(||x||+1)',
         'harness compiled with -fno-sanitize=null in addition to the common flags: Eigen 3.4.0 forms &dst.coeffRef(0,0) of the empty n x 0 product that SearchSpace::restart + update_operator_basis_product evaluates (pointer never dereferenced)']
     R.assumptions = ['the user operator is linear (x -> A x) and A is symmetric', 'solver object is fresh (compute called once per object), maxit >= 1, initial space has between corr and max columns']
@@ -140,7 +143,7 @@ def run(tier, seed, replay=None):
         out = os.path.join(R.work, 'replay'); rc, hlog = run_harness(exe, out, seed, tier, ['--replay', replay])
         R.failures += load_oracle(os.path.join(out, 'oracle.jsonl'))
         return R.finish()
-    standard_prove(R, 'C15', ['JD', 'Sort', 'Guard'])
+    standard_prove(R, 'C15', ['JD', 'JDOrth', 'Sort', 'Guard'])
     r = corr15(R, tier)
     if R.broken and tier == 'quick':
         # an obligation is broken: look for a concrete failing input with the 10x case budget of the thorough generator (oracle only)
@@ -151,6 +154,8 @@ def run(tier, seed, replay=None):
         R.cov['rule'] = ('matrix classes {diagonally dominant, dense non-dominant, block-diagonal, one exactly decoupled coordinate with extreme diagonal, diagonal, clustered, exact Ritz block, graded} x '
                          '{DenseSymMatProd, SparseSymMatProd} x {LargestMagn, LargestAlge, SmallestMagn, SmallestAlge} x {default, orthonormal, non-orthonormal, dependent initial space} x '
                          '{2-argument ctor, explicit init/max sizes incl. max < init + corr (forced restarts) and sizes reaching n}; n in 4..20 (quick) / 4..40 (thorough); fixed corpus of 4 regression inputs first; '
+                         'structured share (48 quick / 480 thorough, one period = {arrowhead, bordered diagonal with 1-3 hubs, twin = repeated diagonal entries with equal couplings, arrowhead block + dense block} x 4 rules x {positive definite, negative definite, indefinite}): '
+                         'integer diagonal, couplings k/8, nev 2..4, so that the DPR corrections of the first expansions are exactly parallel / equal / rank deficient; default space or user space of signed (orthonormal), scaled (non-orthonormal) or repeated (dependent) coordinate vectors; '
                          'distinct request lines counted; per-iteration states obtained by re-running the real loop with maxit = 1, 2, ...')
         R.cov['exhaustive'] = False
     return R.finish()
